@@ -42,6 +42,8 @@ type (
 		E []Val
 	}
 	// PtrCell points at an executor cell (a source local or temporary), optionally a sub-field path.
+	// BoxV stands for a pointer to a local that held V (arguments of abstracted specification calls).
+	BoxV struct{ V Val }
 	PtrCell struct {
 		ID   int
 		Path []int
